@@ -184,6 +184,8 @@ class Index:
                 tree = ast.parse(src, filename=rel)
             except SyntaxError as e:
                 raise AnalysisError(f'cannot parse {rel}: {e}')
+            from .roles import drop_logging
+            drop_logging(tree)              # pure logging statements decide nothing (and may be added or removed freely)
             m = ModuleInfo(modname, p, rel, src, tree, is_package=is_pkg)
             self.modules[modname] = m
         self.digest = h.hexdigest()
